@@ -7,6 +7,12 @@ checks={
  "C19":dict(text=LVL+"per-value bit-vector lemmas for every 64-bit v in [min,max] on a grid of histogram shapes built by the real New, plus whole-histogram walks (record, quantile at every rank, Min/Max, Export/Import, Merge) on small shapes with symbolic recorded values",
             note="shapes on the grid only; walks record <=2 (quick) / <=3 (thorough) distinct symbolic values; composition of lemmas into the quantile clause for big shapes is an argument in DESIGN.md; trusted: go/ssa, fsx interpreter, z3/cvc5",
             ref="§5 C19", tech="SSA symbolic execution + SMT (QF_BV), solver-decided"),
+ "C17":dict(text=LVL+"lists of symbolic int64 keys under three comparators; sortedness, permutation, stability, IsSorted equivalence and Heap order are solver queries over all key values; list usability after sorting checked against the model",
+            note="n<=5 (quick) / n<=6 (thorough) elements; comparators native, reversed, key>>1; trusted: go/ssa, fsx interpreter, sort.SliceStable stub (stable insertion sort driving the real less closure), z3/cvc5",
+            ref="§5 C17", tech="SSA symbolic execution + SMT (QF_BV), solver-decided comparisons"),
+ "C16":dict(text=LVL+"arbitrary single (quick) / pairs of (thorough) public List/Stack operations applied to canonical lists with symbolic values and handles chosen from every element ever returned; the full observation is compared with a ring/LIFO model after every step",
+            note="list lengths <=3 and <=1, 11 operation kinds; JSON outside; two known findings (Swap, Item.Remove) are pinned by the existing tests and listed in known_findings.json; trusted: go/ssa, fsx interpreter, z3",
+            ref="§5 C16", tech="SSA symbolic execution + SMT, case-split on operation/handle selectors"),
 }
 NA={}
 m={"version":1,
